@@ -26,8 +26,8 @@ PROPERTY = 'C09'
 LEVEL = 'exploration'
 
 LIMIT = 64            # step limit when draining an iterator form (legitimate outputs have <= ~12 items)
-CASE_CPU_S = 20.0     # CPU budget of one case (hang guard; a normal case takes microseconds)
-MAX_HANGS = 3         # a shard stops after this many exhausted budgets
+CASE_CPU_S = 5.0      # CPU budget (user time of the worker) of one case; a normal case takes microseconds
+MAX_HANGS = 1         # a shard stops after this many exhausted budgets / runaway iterators
 
 
 class Budget(BaseException):
@@ -530,8 +530,8 @@ def bounds(tier):
     if tier == 'quick':
         return {'L': 7, 'Lkey': 5, 'L2': 5, 'max_size': 9, 'counts': (None, 1, 2, 9), 'maxsplits': ('unset', None, 0, 1, 2, 3, 9),
                 'ranges': {'input_size': 20, 'chunk_size': 8, 'input_offset': 12}}
-    return {'L': 9, 'Lkey': 7, 'L2': 7, 'max_size': 11, 'counts': (None, 1, 2, 3, 11),
-            'maxsplits': ('unset', None, 0, 1, 2, 3, 4, 5, 11),
+    return {'L': 8, 'Lkey': 6, 'L2': 6, 'max_size': 10, 'counts': (None, 1, 2, 3, 10),
+            'maxsplits': ('unset', None, 0, 1, 2, 3, 4, 5, 10),
             'ranges': {'input_size': 48, 'chunk_size': 12, 'input_offset': 25}}
 
 
